@@ -88,8 +88,10 @@ def run(c, chk):
     chk.rule('R8.4', 'the token value is assigned by every token-returning action (no stale value is read)')
     chk.rule('R8.5', 'confuse.c keeps no mutable global besides the token value; scanner configuration is written only by generated init/teardown code')
     chk.trusted = ['flex-generated buffer management (push/pop are inverse)', 'clang/opt IR']
-    chk.assumptions = ['errno is covered by C04 (R4.1)', 'user callbacks do not parse re-entrantly']
+    chk.assumptions = ['user callbacks do not parse re-entrantly']
     lex = c.lex
+    ambient_errno(c, chk)
+    refused_include_leaves_nothing(c, chk)
     gl = {}
     for m in (c.confuse, c.lexer):
         for name, g in mutable_globals(m).items():
@@ -285,3 +287,55 @@ def init_paths(c, f, ex):
     if len(hdrs) != 1:
         return list(ex.explore(f))
     return list(ex.explore(f, start=hdrs[0], stop=[hdrs[0]]))
+
+
+def ambient_errno(c, chk):
+    """R8.6: errno is process-global state an earlier (failed) parse leaves behind: no decision of the value store may
+    depend on the value errno had when the function was entered (only on what the conversion call itself set)"""
+    chk.rule('R8.6', 'no branch of the value conversion depends on errno as it was on entry (what an earlier parse left there)')
+    n = 0
+    for fname in ('cfg_setopt', 'cfg_opt_setmulti'):
+        fn = c.need(fname)
+        ex = sym.Explorer(c.modules, max_visits=2, mod_sets=c.mod_sets, max_paths=100000)
+        bad = None
+        for p in ex.explore(fn):
+            if p.end != 'ret':
+                continue
+            n += 1
+            for cn, t, ins in p.assume:
+                if sym.mentions(cn, lambda v: v[0] == 'ld' and v[1] == ('errno',) and len(v) > 2 and v[2] == (0, 0)):
+                    bad = bad or (p, ins)
+        if bad:
+            chk.fail('R8.6', 'ambient-errno:%s' % fname, c.where(bad[1]) if bad[1] is not None else c.where(fn),
+                     '%s() branches on the value errno had when it was called: what an earlier, unrelated failure left in errno '
+                     '(e.g. ERANGE from a refused number) changes how this value is judged' % fname)
+        else:
+            chk.ok('R8.6', fname, 'errno is read only after the library (or the conversion call) has set it on that path', sample=True)
+    chk.floor('R8.6 paths of the value store', n, 50)
+
+
+def refused_include_leaves_nothing(c, chk):
+    """R8.7: a refused include() costs nothing that later parses need: every failing exit of the include function has
+    closed the file it opened (descriptors are a process-wide resource shared by all contexts)"""
+    from .. import ownership as ow
+    chk.rule('R8.7', 'every failing exit of the include function has closed the file it opened and released the name it made')
+    fn = c.lexer.funcs.get('cfg_lexer_include')
+    if fn is None:
+        raise report.Broken('cfg_lexer_include() not found')
+    ex = sym.Explorer(c.modules, max_visits=2, mod_sets=c.mod_sets, max_paths=50000)
+    n = 0
+    bad = None
+    for p in ex.explore(fn):
+        if p.end != 'ret' or p.retval == sym.C0:
+            continue
+        n += 1
+        for fd in ow.analyse_path(p, fn.name):
+            if fd.kind == 'leak':
+                bad = bad or fd
+    if bad is not None:
+        chk.fail('R8.7', 'include-fail-leak', c.where(bad.ev.ins) if bad.ev is not None else c.where(fn),
+                 'cfg_lexer_include() fails without releasing what it acquired (%s): every refused include() leaves a file open, '
+                 'and when the descriptor table is full no context can parse or include a file any more' % bad.detail)
+    elif n:
+        chk.ok('R8.7', 'cfg_lexer_include: %d failing exits' % n, 'file closed and name released on each', sample=True)
+    chk.floor('R8.7 failing exits of the include function', n, 4)
